@@ -11,6 +11,7 @@ mutual
 def erase {ν} : ATree ν → Tree
   | .text m => .text m
   | .elem a _ ks => .elem a (eraseL ks)
+  | .uni a _ ks => .uni a (eraseL ks)
 def eraseL {ν} : List (ATree ν) → List Tree
   | [] => []
   | t :: ts => erase t :: eraseL ts
@@ -21,6 +22,7 @@ mutual
 def ann {ν} (lvl : Int) : ATree ν → Bool
   | .text _ => true
   | .elem a f ks => (f.isSome == decide (a.level ≤ lvl)) && annL lvl ks
+  | .uni a f ks => (f.isSome == decide (a.level ≤ lvl)) && annL lvl ks
 def annL {ν} (lvl : Int) : List (ATree ν) → Bool
   | [] => true
   | t :: ts => ann lvl t && annL lvl ts
@@ -31,6 +33,7 @@ mutual
 def fileNames {ν} : ATree ν → List ν
   | .text _ => []
   | .elem _ f ks => f.toList ++ fileNamesL ks
+  | .uni _ f ks => f.toList ++ fileNamesL ks
 def fileNamesL {ν} : List (ATree ν) → List ν
   | [] => []
   | t :: ts => fileNames t ++ fileNamesL ts
@@ -43,46 +46,59 @@ def unitReqsL (lvl : Int) (ts : List Tree) : List Req := (unitsL lvl ts).map fun
 variable {ν : Type}
 @[simp] theorem erase_text (m) : erase (.text m : ATree ν) = .text m := by rw [erase]
 @[simp] theorem erase_elem (a) (f : Option ν) (ks) : erase (.elem a f ks) = .elem a (eraseL ks) := by rw [erase]
+@[simp] theorem erase_uni (a) (f : Option ν) (ks) : erase (.uni a f ks) = .uni a (eraseL ks) := by rw [erase]
 @[simp] theorem eraseL_nil : eraseL ([] : List (ATree ν)) = [] := by rw [eraseL]
 @[simp] theorem eraseL_cons (t : ATree ν) (ts) : eraseL (t :: ts) = erase t :: eraseL ts := by rw [eraseL]
 @[simp] theorem ann_text (l m) : ann l (.text m : ATree ν) = true := by rw [ann]
 @[simp] theorem ann_elem (l a) (f : Option ν) (ks) : ann l (.elem a f ks) = ((f.isSome == decide (a.level ≤ l)) && annL l ks) := by rw [ann]
+@[simp] theorem ann_uni (l a) (f : Option ν) (ks) : ann l (.uni a f ks) = ((f.isSome == decide (a.level ≤ l)) && annL l ks) := by rw [ann]
 @[simp] theorem annL_nil (l) : annL l ([] : List (ATree ν)) = true := by rw [annL]
 @[simp] theorem annL_cons (l) (t : ATree ν) (ts) : annL l (t :: ts) = (ann l t && annL l ts) := by rw [annL]
 @[simp] theorem fileNames_text (m) : fileNames (.text m : ATree ν) = [] := by rw [fileNames]
 @[simp] theorem fileNames_elem (a) (f : Option ν) (ks) : fileNames (.elem a f ks) = f.toList ++ fileNamesL ks := by rw [fileNames]
+@[simp] theorem fileNames_uni (a) (f : Option ν) (ks) : fileNames (.uni a f ks) = f.toList ++ fileNamesL ks := by rw [fileNames]
 @[simp] theorem fileNamesL_nil : fileNamesL ([] : List (ATree ν)) = [] := by rw [fileNamesL]
 @[simp] theorem fileNamesL_cons (t : ATree ν) (ts) : fileNamesL (t :: ts) = fileNames t ++ fileNamesL ts := by rw [fileNamesL]
 
 @[simp] theorem texts_text (m) : texts (.text m) = [m] := by rw [texts]
 @[simp] theorem texts_elem (a ks) : texts (.elem a ks) = textsL ks := by rw [texts]
+@[simp] theorem texts_uni (a ks) : texts (.uni a ks) = textsL ks := by rw [texts]
 @[simp] theorem textsL_nil : textsL [] = [] := by rw [textsL]
 @[simp] theorem textsL_cons (t ts) : textsL (t :: ts) = texts t ++ textsL ts := by rw [textsL]
 @[simp] theorem body_text (l m) : body l (.text m) = [m] := by rw [body]
 @[simp] theorem body_elem (l a ks) : body l (.elem a ks) = if isUnit l a || a.foot then [] else bodyL l ks := by rw [body]
+@[simp] theorem body_uni (l a ks) : body l (.uni a ks) = [] := by rw [body]
 @[simp] theorem bodyL_nil (l) : bodyL l [] = [] := by rw [bodyL]
 @[simp] theorem bodyL_cons (l t ts) : bodyL l (t :: ts) = body l t ++ bodyL l ts := by rw [bodyL]
 @[simp] theorem foot_text (l m) : foot l (.text m) = [] := by rw [foot]
 @[simp] theorem foot_elem (l a ks) :
     foot l (.elem a ks) = if isUnit l a then [] else if a.foot then footL l ks ++ bodyL l ks else footL l ks := by rw [foot]
+@[simp] theorem foot_uni (l a ks) : foot l (.uni a ks) = if isUnit l a then [] else footL l ks := by rw [foot]
 @[simp] theorem footL_nil (l) : footL l [] = [] := by rw [footL]
 @[simp] theorem footL_cons (l t ts) : footL l (t :: ts) = foot l t ++ footL l ts := by rw [footL]
 @[simp] theorem units_text (l m) : units l (.text m) = [] := by rw [units]
 @[simp] theorem units_elem (l a ks) :
     units l (.elem a ks) = if isUnit l a then ⟨a, bodyL l ks, footL l ks⟩ :: unitsL l ks else unitsL l ks := by rw [units]
+@[simp] theorem units_uni (l a ks) :
+    units l (.uni a ks) = if isUnit l a then ⟨a, bodyL l ks, footL l ks⟩ :: unitsL l ks else unitsL l ks := by rw [units]
 @[simp] theorem unitsL_nil (l) : unitsL l [] = [] := by rw [unitsL]
 @[simp] theorem unitsL_cons (l t ts) : unitsL l (t :: ts) = units l t ++ unitsL l ts := by rw [unitsL]
 @[simp] theorem owners_text (l c m) : owners l c (.text m) = [(m, c)] := by rw [owners]
 @[simp] theorem owners_elem (l c a ks) :
     owners l c (.elem a ks) = ownersL l (if isUnit l a then a.tag else c) ks := by rw [owners]
+@[simp] theorem owners_uni (l c a ks) :
+    owners l c (.uni a ks) = ownersL l (if isUnit l a then a.tag else c) ks := by rw [owners]
 @[simp] theorem ownersL_nil (l c) : ownersL l c [] = [] := by rw [ownersL]
 @[simp] theorem ownersL_cons (l c t ts) : ownersL l c (t :: ts) = owners l c t ++ ownersL l c ts := by rw [ownersL]
 @[simp] theorem wf_text (l m) : wf l (.text m) = true := by rw [wf]
 @[simp] theorem wf_elem (l a ks) : wf l (.elem a ks) = (!(isUnit l a && a.foot) && wfL l ks) := by rw [wf]
+@[simp] theorem wf_uni (l a ks) : wf l (.uni a ks) = (!isUnit l a && !a.foot && ks.isEmpty) := by rw [wf]
 @[simp] theorem wfL_nil (l) : wfL l [] = true := by rw [wfL]
 @[simp] theorem wfL_cons (l t ts) : wfL l (t :: ts) = (wf l t && wfL l ts) := by rw [wfL]
 @[simp] theorem footFree_text (l i m) : footFree l i (.text m) = true := by rw [footFree]
 @[simp] theorem footFree_elem (l i a ks) : footFree l i (.elem a ks) =
+    (!(i && isUnit l a) && footFreeL l (i || a.foot) ks) := by rw [footFree]
+@[simp] theorem footFree_uni (l i a ks) : footFree l i (.uni a ks) =
     (!(i && isUnit l a) && footFreeL l (i || a.foot) ks) := by rw [footFree]
 @[simp] theorem footFreeL_nil (l i) : footFreeL l i [] = true := by rw [footFreeL]
 @[simp] theorem footFreeL_cons (l i t ts) : footFreeL l i (t :: ts) = (footFree l i t && footFreeL l i ts) := by rw [footFreeL]
@@ -100,11 +116,18 @@ theorem child_some (a) (n : ν) (ks) : child (.elem a (some n) ks) =
         ++ [(n, .lop a.tag :: ((if a.foot then ([Tok.mark a.tag], ([] : List (File ν))) else (.op a.tag :: ((strKids ks).1 ++ [.cl a.tag]), (strKids ks).2)).1
               ++ (if a.level < ENDSECTIONS_LEVEL then footOutL ks else ([], [])).1 ++ [.lcl a.tag]))]) := by
   rw [child]
+@[simp] theorem child_uni (a) (f : Option ν) (ks) : child (.uni a f ks) = ([Tok.uni a.tag], []) := by rw [child]
 @[simp] theorem footOut_text (m) : footOut (.text m : ATree ν) = ([], []) := by rw [footOut]
 theorem footOut_elem (a) (f : Option ν) (ks) : footOut (.elem a f ks) =
     (if a.foot then
       ((if claims a f then (([], []) : List Tok × List (File ν)) else footOutL ks).1 ++ (.fop a.tag :: ((strKids ks).1 ++ [.fcl a.tag])),
        (if claims a f then (([], []) : List Tok × List (File ν)) else footOutL ks).2 ++ (strKids ks).2)
+     else (if claims a f then ([], []) else footOutL ks)) := by
+  rw [footOut]
+theorem footOut_uni (a) (f : Option ν) (ks) : footOut (.uni a f ks) =
+    (if a.foot then
+      ((if claims a f then (([], []) : List Tok × List (File ν)) else footOutL ks).1 ++ [Tok.fop a.tag, Tok.uni a.tag, Tok.fcl a.tag],
+       (if claims a f then (([], []) : List Tok × List (File ν)) else footOutL ks).2)
      else (if claims a f then ([], []) else footOutL ks)) := by
   rw [footOut]
 @[simp] theorem footOutL_nil : footOutL ([] : List (ATree ν)) = ([], []) := by rw [footOutL]
@@ -117,6 +140,7 @@ theorem footOut_elem (a) (f : Option ν) (ks) : footOut (.elem a f ks) =
 @[simp] theorem textsOf_op (t r) : textsOf (.op t :: r) = textsOf r := rfl
 @[simp] theorem textsOf_cl (t r) : textsOf (.cl t :: r) = textsOf r := rfl
 @[simp] theorem textsOf_mark (t r) : textsOf (.mark t :: r) = textsOf r := rfl
+@[simp] theorem textsOf_uni (t r) : textsOf (.uni t :: r) = textsOf r := rfl
 @[simp] theorem textsOf_lop (t r) : textsOf (.lop t :: r) = textsOf r := rfl
 @[simp] theorem textsOf_lcl (t r) : textsOf (.lcl t :: r) = textsOf r := rfl
 @[simp] theorem textsOf_fop (t r) : textsOf (.fop t :: r) = textsOf r := rfl
@@ -213,6 +237,39 @@ theorem assign_spec {σ} (g : Gen σ ν) (lvl : Int) (t : Tree) (s s' : σ) (t' 
             List.singleton_append]
           simp only [unitReqsL] at hr
           rw [hr]
+  | uni a ks =>
+    rw [assign] at h
+    by_cases hl : a.level > lvl
+    · simp only [filenameOf, hl, if_true] at h
+      cases hk : assignL g lvl s ks with
+      | error e => simp [hk] at h
+      | ok p =>
+        obtain ⟨ks', s2⟩ := p
+        simp only [hk, Except.ok.injEq, Prod.mk.injEq] at h
+        obtain ⟨rfl, rfl⟩ := h
+        obtain ⟨he, ha, hr⟩ := assignL_spec g lvl ks s s2 ks' hk
+        have hu : isUnit lvl a = false := by simp [isUnit]; omega
+        refine ⟨by simp [he], by simp [ha]; omega, ?_⟩
+        simpa [unitReqs, unitReqsL, hu] using hr
+    · simp only [filenameOf, hl, if_false] at h
+      cases hg : g.next s (req a) with
+      | error e => simp [hg] at h
+      | ok q =>
+        obtain ⟨n, s1⟩ := q
+        simp only [hg] at h
+        cases hk : assignL g lvl s1 ks with
+        | error e => simp [hk] at h
+        | ok p =>
+          obtain ⟨ks', s2⟩ := p
+          simp only [hk, Except.ok.injEq, Prod.mk.injEq] at h
+          obtain ⟨rfl, rfl⟩ := h
+          obtain ⟨he, ha, hr⟩ := assignL_spec g lvl ks s1 s2 ks' hk
+          have hu : isUnit lvl a = true := by simp [isUnit]; omega
+          refine ⟨by simp [he], by simp [ha]; omega, ?_⟩
+          simp only [unitReqs, units_uni, hu, if_true, List.map_cons, run, hg, fileNames_uni, Option.toList_some,
+            List.singleton_append]
+          simp only [unitReqsL] at hr
+          rw [hr]
 theorem assignL_spec {σ} (g : Gen σ ν) (lvl : Int) (ts : List Tree) (s s' : σ) (ts' : List (ATree ν))
     (h : assignL g lvl s ts = .ok (ts', s')) :
     eraseL ts' = ts ∧ annL lvl ts' = true ∧ run g s (unitReqsL lvl ts) = .ok (fileNamesL ts', s') := by
@@ -270,6 +327,13 @@ theorem nofiles (lvl : Int) (i : Bool) (t : ATree ν) (ha : ann lvl t = true) (h
       subst hnone
       have k2' := k2 (by simp)
       by_cases hfoot : a.foot = true <;> simp [child_none, hfoot, k2']
+  | uni a f ks =>
+    simp only [erase_uni, footFree_uni, Bool.and_eq_true, Bool.not_eq_true'] at hw
+    simp only [ann_uni, Bool.and_eq_true, beq_iff_eq] at ha
+    obtain ⟨k1, _⟩ := nofilesL lvl (i || a.foot) ks ha.2 hw.2
+    refine ⟨?_, fun _ => by simp⟩
+    rw [footOut_uni]
+    by_cases hfoot : a.foot = true <;> by_cases hc : claims a f = true <;> simp [hfoot, hc, k1]
 theorem nofilesL (lvl : Int) (i : Bool) (ts : List (ATree ν)) (ha : annL lvl ts = true)
     (hw : footFreeL lvl i (eraseL ts) = true) :
     (footOutL ts).2 = [] ∧ (i = true → (strKids ts).2 = []) := by
@@ -339,6 +403,19 @@ theorem main (lvl : Int) (hl : lvl < ENDSECTIONS_LEVEL) (t : ATree ν) (ha : ann
       · have hfoot' : a.foot = false := by simpa using hfoot
         refine ⟨by simp [child_none, hfoot', hU, i1], by simp [footOut_elem, claims, hfoot', hU, i2], by simp [hU, i4], ?_⟩
         simpa [child_none, footOut_elem, claims, hfoot', hU] using i5
+  | uni a f ks =>
+    -- printed as its unicode equivalent: in the domain a leaf that is neither unit nor footnote
+    simp only [erase_uni, wf_uni, Bool.and_eq_true, Bool.not_eq_true', List.isEmpty_iff] at hw
+    obtain ⟨⟨hU, hfoot⟩, hemp⟩ := hw
+    simp only [ann_uni, Bool.and_eq_true, beq_iff_eq] at ha
+    have hu' : decide (a.level ≤ lvl) = false := by simpa [isUnit] using hU
+    have hfile := ha.1
+    rw [hu'] at hfile
+    have hnone : f = none := by cases f <;> simp_all
+    subst hnone
+    cases ks with
+    | cons k ks' => simp at hemp
+    | nil => simp [footOut_uni, claims, hfoot, hU]
 theorem mainL (lvl : Int) (hl : lvl < ENDSECTIONS_LEVEL) (ts : List (ATree ν)) (ha : annL lvl ts = true)
     (hw : wfL lvl (eraseL ts) = true) :
     textsOf (strKids ts).1 = bodyL lvl (eraseL ts) ∧
@@ -417,6 +494,13 @@ theorem tops_render (lvl : Int) (hl : lvl < ENDSECTIONS_LEVEL) (ts : List (ATree
             simp only [erase_elem, wf_elem, Bool.and_eq_true] at hw1
             have hfoot : a.foot = false := by simpa [isUnit, hu] using hw1.1
             simp [footOut_elem, claims, hsome, lt_ends_of_le hl hu, hfoot]
+          | uni a f ks =>
+            have hd : a.level = DOCUMENT_LEVEL := by simpa [isDocRoot] using hdoc
+            have hw1 := hw.1
+            simp only [erase_uni, wf_uni, Bool.and_eq_true, Bool.not_eq_true'] at hw1
+            have : isUnit lvl a = true := by simp [isUnit, hd, hlow]
+            rw [this] at hw1
+            simp at hw1
         · exact (inert_nofiles lvl hl t ha.1 hw.1 hin).2
       · simp only [eraseL_cons, footFreeL_cons, Bool.and_eq_true] at hff
         exact (nofiles lvl false t ha.1 hff.1).1
@@ -464,6 +548,10 @@ theorem conserve (lvl : Int) (t : Tree) (hw : wf lvl t = true) :
         omega
       · have hfoot' : a.foot = false := by simpa using hfoot
         simpa [hU', hfoot'] using ih
+  | uni a ks =>
+    simp only [wf_uni, Bool.and_eq_true, Bool.not_eq_true', List.isEmpty_iff] at hw
+    obtain ⟨⟨hU, _⟩, rfl⟩ := hw
+    simp [hU]
 theorem conserveL (lvl : Int) (ts : List Tree) (hw : wfL lvl ts = true) :
     List.Perm (utexts (unitsL lvl ts) ++ (bodyL lvl ts ++ footL lvl ts)) (textsL ts) := by
   cases ts with
@@ -508,6 +596,10 @@ theorem owners_spec (lvl : Int) (t : Tree) (hw : wf lvl t = true) (cur m u : Nat
         · have hfoot' : a.foot = false := by simpa using hfoot
           simpa [hU', hfoot'] using h2
       · right; exact ⟨un, by simp [hU', h1], h2⟩
+  | uni a ks =>
+    simp only [wf_uni, Bool.and_eq_true, Bool.not_eq_true', List.isEmpty_iff] at hw
+    obtain ⟨_, rfl⟩ := hw
+    simp at h
 theorem owners_specL (lvl : Int) (ts : List Tree) (hw : wfL lvl ts = true) (cur m u : Nat)
     (h : (m, u) ∈ ownersL lvl cur ts) :
     (u = cur ∧ m ∈ bodyL lvl ts ++ footL lvl ts) ∨ ∃ un ∈ unitsL lvl ts, un.attrs.tag = u ∧ m ∈ un.body ++ un.foot := by
@@ -640,6 +732,31 @@ theorem assign_run {σ} (g : Gen σ ν) (lvl : Int) (t : Tree) (s : σ) :
       | ok p => obtain ⟨ks', s2⟩ := p; simp [Except.map]
     · have hu : isUnit lvl a = true := by simp [isUnit]; omega
       simp only [filenameOf, hl, if_false, unitReqs, units_elem, hu, if_true, List.map_cons, run]
+      cases g.next s (req a) with
+      | error e => rfl
+      | ok q =>
+        obtain ⟨n, s1⟩ := q
+        simp only []
+        have ih' := ih s1
+        simp only [unitReqsL] at ih'
+        rw [← ih']
+        cases assignL g lvl s1 ks with
+        | error e => rfl
+        | ok p => obtain ⟨ks', s2⟩ := p; simp [Except.map]
+  | uni a ks =>
+    rw [assign]
+    have ih := assignL_run g lvl ks
+    by_cases hl : a.level > lvl
+    · have hu : isUnit lvl a = false := by simp [isUnit]; omega
+      simp only [filenameOf, hl, if_true, unitReqs, units_uni, hu, Bool.false_eq_true, if_false]
+      have ih' := ih s
+      simp only [unitReqsL] at ih'
+      rw [← ih']
+      cases assignL g lvl s ks with
+      | error e => rfl
+      | ok p => obtain ⟨ks', s2⟩ := p; simp [Except.map]
+    · have hu : isUnit lvl a = true := by simp [isUnit]; omega
+      simp only [filenameOf, hl, if_false, unitReqs, units_uni, hu, if_true, List.map_cons, run]
       cases g.next s (req a) with
       | error e => rfl
       | ok q =>
